@@ -59,6 +59,31 @@ func errClass(msg string) string {
 	return msg
 }
 
+// panicSite extracts the function in which a recovered panic was raised from debug.Stack() output taken inside the
+// deferred recover: the first frame after the runtime's panic frames. Stable (no addresses, no line numbers).
+func panicSite(stack string) string {
+	lines := strings.Split(stack, "\n")
+	seenPanic := false
+	for _, l := range lines {
+		if strings.HasPrefix(l, "\t") || strings.HasPrefix(l, "goroutine ") || l == "" {
+			continue
+		}
+		fn := l
+		if i := strings.LastIndex(fn, "("); i > 0 {
+			fn = fn[:i]
+		}
+		if strings.HasPrefix(fn, "panic") {
+			seenPanic = true
+			continue
+		}
+		if !seenPanic || strings.HasPrefix(fn, "runtime.") {
+			continue
+		}
+		return fn
+	}
+	return "unknown"
+}
+
 func sameState(a, b ringState) bool { return a.String() == b.String() }
 
 func lastSeq(s ringState) int {
